@@ -100,6 +100,7 @@ pub fn operand_scale(e: &Expr, c: &Ctx) -> f64 {
             Expr::ToZone { e, .. } | Expr::AsUnix { e, .. } | Expr::FromUnix { e, .. } => walk(e, c, vals),
             Expr::Between { a, b } => { walk(a, c, vals); walk(b, c, vals); }
             Expr::At { d, t } => { walk(d, c, vals); walk(t, c, vals); }
+            Expr::UnitOf { e, .. } => walk(e, c, vals),
         }
     }
     let mut vals = Vec::new();
@@ -252,6 +253,11 @@ pub fn eval(e: &Expr, c: &Ctx) -> R {
             let (z, o) = match zone { Some((z, o)) => (z.to_uppercase(), *o), None => c.zone.clone() };
             R::V(MVal::DateTime { utc: n, zone: z, off: o })
         }
+        Expr::UnitOf { e, family, index, .. } => match eval(e, c) {
+            R::V(MVal::Num(v)) => R::V(MVal::Unit(v, family.clone(), *index)),
+            R::V(_) => R::Unjudged("unit-of-non-number"),
+            other => other,
+        },
         Expr::At { d, t } => {
             let date = match eval(d, c) { R::V(MVal::Date(x)) => x, R::V(_) => return R::Unjudged("at-of-non-date"), R::AnyOf(_) => return R::Unjudged("open-choice-operand"), other => return other };
             match eval(t, c) {
@@ -310,7 +316,7 @@ pub fn agrees(exp: &MVal, obs: &Val, out: &str) -> bool {
         (MVal::Pct(a), Val::Pct(v)) => close(*a, v.0),
         (MVal::Money(a, c), Val::Money { v, code }) => close(*a, v.0) && c.eq_ignore_ascii_case(code),
         (MVal::Dur { secs, .. }, Val::Dur { secs: s, nanos }) => secs == s && *nanos == 0,
-        (MVal::Date(d), Val::Date { days, .. }) => d == days,
+        (MVal::Date(d), Val::Date { days, .. }) => d == days && out.split(' ').next() == Some(&civil_from_days(*d).2.to_string()[..]),
         (MVal::Time { wall, zone, off, .. }, Val::Time { utc, zone: z, off: o, .. }) => {
             let w = rem(*wall);
             rem(*utc + *o as i64 * 60) == w && off == o && zone.eq_ignore_ascii_case(z)
@@ -372,6 +378,7 @@ pub fn shape(e: &Expr) -> String {
         Expr::AsUnix { e, .. } => format!("asunix({})", shape(e)),
         Expr::FromUnix { e, zone, .. } => format!("fromunix({}{})", shape(e), if zone.is_some() { ",zone" } else { "" }),
         Expr::At { d, t } => format!("at({},{})", shape(d), match &**t { Expr::Lit(Lit::Time(_)) => "time".to_string(), other => shape(other) }),
+        Expr::UnitOf { e, .. } => format!("unitof({})", shape(e)),
     }
 }
 
